@@ -148,3 +148,7 @@ pub mod sieve;
 
 #[cfg(any(test, feature = "test_utils"))]
 pub mod test_utils;
+
+#[cfg(kani)]
+#[path = "/verif/harness/foyer-memory/eviction.rs"]
+mod verif_kani;
